@@ -85,7 +85,7 @@ def runLine (fixed : Bool) (unsorted : Bool) (buf : List Nat) : String :=
 def b01 (b : Bool) : String := if b then "1" else "0"
 
 /-! metadata line: `meta <n> (<parsed> <version|N> <part-hex|N> <loom-hex|N> <pid> <tid> <appid|N> <finished> <hasreq> <haslib> <cpus|N> <requires|->)*n  <evmodels|->`
-    cpus = `i:p,i:p` or `E` (empty array); requires/evmodels = comma separated model chars -/
+    cpus = `i:p,i:p` or `E` (empty array); requires = `namehex=versionhex,...`; evmodels = comma separated model chars -/
 
 def optInt (s : String) : Option Int := if s = "N" then none else s.toInt?
 def optStr (s : String) : Option String :=
@@ -97,11 +97,20 @@ def cpuList (s : String) : Option (List (Int × Int)) :=
     | [a, b] => match a.toInt?, b.toInt? with | some x, some y => some (x, y) | _, _ => none
     | _ => none)
 
+/-- `namehex=versionhex,...` (string-valued entries of `ovni.require`; an empty string is written `E`) -/
+def reqList (s : String) : List (List Nat × List Nat) :=
+  if s = "-" then [] else
+  (s.splitOn ",").filterMap fun p => match p.splitOn "=" with
+    | [a, b] => match hexBytes a, (if b = "E" then some [] else hexBytes b) with
+      | some x, some y => some (x, y) | _, _ => none
+    | _ => none
+
 def parseMeta : List String → Option (Ovni.Emu.Meta.Meta × List String)
   | p :: v :: part :: loom :: pid :: tid :: app :: fin :: req :: lib :: cpus :: rq :: rest =>
     some ({ parsed := p = "1", version := optInt v, part := optStr part, loom := optStr loom,
             pid := pid.toInt?.getD 0, tid := tid.toInt?.getD 0, appId := optInt app, finished := fin = "1",
-            hasRequire := req = "1", hasLib := lib = "1", cpus := cpuList cpus, requires := natList rq }, rest)
+            hasRequire := req = "1", hasLib := lib = "1", cpus := cpuList cpus, requires := [],
+            reqs := reqList rq }, rest)
   | _ => none
 
 def parseMetas : Nat → List String → Option (List Ovni.Emu.Meta.Meta × List String)
@@ -122,11 +131,14 @@ def metaLine (ws : List String) : String :=
       match Ovni.Emu.Meta.checkTrace ms with
       | .error e => s!"meta reject {clsName e}"
       | .ok () =>
-        let ths := ms.filter fun m => Ovni.Emu.Meta.checkStream m == .ok true
+        let models := Ovni.Generated.modelVersions
+        let ths := (ms.filter fun m => Ovni.Emu.Meta.checkStream m == .ok true).map fun m =>
+          { m with requires := m.compatReqs models }
         -- events from a stream that is not a thread stream: set_current fails
         if ms.any (fun m => Ovni.Emu.Meta.checkStream m == .ok false) then "meta reject unknownStream"
+        else if Ovni.Emu.Meta.versionGate models ths != .ok () then "meta reject reqVersion"
         else match (natList evm).findSome? (fun m =>
-            match Ovni.Emu.Meta.modelGate [79, 54, 86, 68, 84, 77, 75, 80] ths m with
+            match Ovni.Emu.Meta.modelGate (models.map (·.2.2)) ths m with
             | .error e => some e | .ok () => none) with
           | some e => s!"meta reject {clsName e}"
           | none => "meta ok"
